@@ -67,7 +67,7 @@ theorem mapM_bcfGtRes_render (gts : List GtRes) (hw : ∀ g ∈ gts, WfGt g) :
     simp [List.mapM_cons, h1, h2]
 
 theorem bcfIndiv_render (gts : List GtRes) (hw : ∀ g ∈ gts, WfGt g) :
-    bcfIndiv (some 1) 2 gts.length 1 ([0x11, 1, 0x21] ++ gts.flatMap renderGtBcf) = some gts := by
+    bcfIndiv (some 1) [some "PASS", some "GT"] gts.length 1 ([0x11, 1, 0x21] ++ gts.flatMap renderGtBcf) = some gts := by
   have hlen := flatMap_renderGtBcf_length gts
   have ht : takeN (gts.length * 2) (gts.flatMap renderGtBcf) = some (gts.flatMap renderGtBcf, []) := by
     have := takeN_append_of_eq (gts.length * 2) (gts.flatMap renderGtBcf) [] (by omega)
@@ -78,7 +78,7 @@ theorem bcfIndiv_render (gts : List GtRes) (hw : ∀ g ∈ gts, WfGt g) :
 
 theorem bcfRecord_encode (h : VcfHeader) (ci pos : Nat) (contig : String) (gts : List GtRes)
     (hci : ci < 2 ^ 31) (hpos : pos < 2 ^ 31 - 1) (hn : gts.length < 2 ^ 24) (hs : h.samples.length = gts.length)
-    (hc : h.contigs[ci]? = some contig) (hstr : h.strings.idxOf? "GT" = some 1) (hsl : h.strings.length = 2) (hw : ∀ g ∈ gts, WfGt g) :
+    (hc : h.contigs[ci]? = some (some contig)) (hstr : h.strings = [some "PASS", some "GT"]) (hw : ∀ g ∈ gts, WfGt g) :
     bcfRecord h (toLe32 ci ++ toLe32 pos ++ toLe32 1 ++ [0x01, 0x00, 0x80, 0x7f] ++ toLe32 (2 * 65536) ++
         toLe32 (16777216 + gts.length) ++ [0x07, 0x17, 65, 0x17, 67, 0x00])
       ([0x11, 1, 0x21] ++ gts.flatMap renderGtBcf) = some (Rec.gts contig (pos + 1) gts) := by
@@ -95,6 +95,7 @@ theorem bcfRecord_encode (h : VcfHeader) (ci pos : Nat) (contig : String) (gts :
   have p4 : ¬ pos ≥ 2 ^ 31 - 1 := by omega
   have hi := bcfIndiv_render gts hw
   simp only [List.cons_append, List.nil_append] at hi
+  have hidx : ([some "PASS", some "GT"] : List (Option String)).idxOf? (some "GT") = some 1 := by decide
   have htl : bcfSharedTailOk (leNat [2 * 65536 / 65536 % 256, 2 * 65536 / 16777216 % 256])
       (leNat [2 * 65536 % 256, 2 * 65536 / 256 % 256]) [0x07, 0x17, 65, 0x17, 67, 0x00] = true := by decide
   have hal : ¬ leNat [2 * 65536 / 65536 % 256, 2 * 65536 / 16777216 % 256] = 0 := by decide
@@ -107,8 +108,8 @@ theorem bcfRecord_encode (h : VcfHeader) (ci pos : Nat) (contig : String) (gts :
       toLe32 (16777216 + gts.length) ++ [0x07, 0x17, 65, 0x17, 67, 0x00] =
     (toLe32 ci ++ toLe32 pos ++ toLe32 1 ++ [0x01, 0x00, 0x80, 0x7f] ++ toLe32 (2 * 65536) ++
       toLe32 (16777216 + gts.length)) ++ [0x07, 0x17, 65, 0x17, 67, 0x00] from rfl, htk _ _ rfl]
-  simp only [toLe32, List.cons_append, List.nil_append, e1, e2, e3, e4, c3, p3, p4, hr3, hq, hal, htl, hs, hc, hstr, hsl,
-    hi, ne_eq, not_true_eq_false, or_self, if_false, Option.map_some, Bool.not_true, Bool.false_eq_true]
+  simp only [toLe32, List.cons_append, List.nil_append, e1, e2, e3, e4, c3, p3, p4, hr3, hq, hal, htl, hs, hc, hstr, hidx,
+    hi, Option.join_some, ne_eq, not_true_eq_false, or_self, if_false, Option.map_some, Bool.not_true, Bool.false_eq_true]
 
 /-! ## the record loop -/
 
@@ -143,7 +144,7 @@ theorem bcfRecords_encode (cols contigs : List String) (recs : List (String × N
     (hn : cols.length < 2 ^ 24) (hc : contigs.length < 2 ^ 31)
     (hw : ∀ r ∈ recs, r.1 ∈ contigs ∧ 1 ≤ r.2.1 ∧ r.2.2.length = cols.length ∧ ∀ g ∈ r.2.2, WfGt g)
     (hp : ∀ r ∈ recs, r.2.1 < 2 ^ 31) (fuel : Nat) (hf : recs.length < fuel) :
-    bcfRecords ⟨cols, contigs, ["PASS", "GT"]⟩ fuel
+    bcfRecords ⟨cols, contigs.map some, [some "PASS", some "GT"]⟩ fuel
       (recs.flatMap (fun r => bcfEncodeRec contigs cols.length r.1 r.2.1 r.2.2)) = some (toRecs recs) := by
   induction recs generalizing fuel with
   | nil =>
@@ -159,8 +160,9 @@ theorem bcfRecords_encode (cols contigs : List String) (recs : List (String × N
       have ih' := ih (fun x hx => hw x (by simp [hx])) (fun x hx => hp x (by simp [hx])) f
         (by simp only [List.length_cons] at hf; omega)
       have hidx : contigs.idxOf contig < contigs.length := List.idxOf_lt_length_of_mem hmem
-      have hrec := bcfRecord_encode ⟨cols, contigs, ["PASS", "GT"]⟩ (contigs.idxOf contig) (pos - 1) contig gts
-        (by omega) (by omega) (by omega) hlen.symm (getElem?_idxOf_of_mem contigs contig hmem) rfl rfl hgt
+      have hrec := bcfRecord_encode ⟨cols, contigs.map some, [some "PASS", some "GT"]⟩ (contigs.idxOf contig) (pos - 1) contig gts
+        (by omega) (by omega) (by omega) hlen.symm
+        (by simp only [List.getElem?_map, getElem?_idxOf_of_mem contigs contig hmem, Option.map_some]) rfl hgt
       have hposeq : pos - 1 + 1 = pos := by omega
       rw [hlen, hposeq] at hrec
       have hfl := flatMap_renderGtBcf_length gts
@@ -185,7 +187,7 @@ theorem length_le_flatMap_bcfEncodeRec (contigs : List String) (ncols : Nat) (re
 theorem bcfDecode_bcfEncode (cols contigs : List String) (recs : List (String × Nat × List GtRes))
     (h : WfCallSet cols contigs recs) (hs : FitsBcf cols contigs recs) :
     bcfDecode (bcfEncode cols contigs recs) = some (cols, toRecs recs) := by
-  have hhdr := parseVcfHeaderLines_headerText cols contigs h.cols_ne h.cols_wf h.cols_nodup h.contigs_wf []
+  have hhdr := parseVcfHeaderLines_headerText cols contigs h.cols_ne h.cols_wf h.cols_nodup h.contigs_wf h.contigs_nodup []
   rw [List.append_nil] at hhdr
   have htext := hs.text
   have hlenText : (headerText cols contigs ++ [0]).length = (headerText cols contigs).length + 1 := by simp
